@@ -122,6 +122,18 @@ def run_kind(family, kind, timeout_ms=None, config=None):
                                  z3.BoolVal(False), kind="noexc",
                                  info={"exception": tb, "at": f"{os.path.basename(where.filename)}:{where.lineno}"})
             obs.append(ob)
+        # vacuity guard: the hypotheses under which this path's obligations were proved must be satisfiable
+        if obs and pr.kind == "return" and not any(z3.is_false(o.goal) for o in obs):
+            last = obs[-1]
+            gids = {g_.get_id() for g_ in getattr(last, "guards", [])}
+            can = core.Obligation("canary", [h for h in last.hyps if h.get_id() not in gids], last.schemas, last.pool,
+                                  z3.BoolVal(False), kind="canary")
+            discharge(can, timeout_ms=3000, use_native=False)
+            if can.status == "proved":
+                out["obligations"].append({"name": f"{family.name}/{kind}/path={path}/canary", "status": "vacuous",
+                                           "reason": "the hypotheses of this path are contradictory", "time": can.time,
+                                           "kind": "canary"})
+            out["canaries"] = out.get("canaries", 0) + 1
         for ob in obs:
             discharge(ob, timeout_ms=timeout_ms)
             rec = {"name": f"{family.name}/{kind}/path={path}/{ob.name}", "status": ob.status, "time": round(ob.time, 4),
